@@ -176,7 +176,10 @@ type Layout struct {
 }
 
 type printer struct {
-	b   strings.Builder
+	// lines: first and last source line of every call, keyed "PIPELINE.CALL"
+	// ("" pipeline for the top-level call).
+	lines map[string][2]int
+	b     strings.Builder
 	lay *Layout
 	u   *Universe
 	nc  int
@@ -233,7 +236,13 @@ func writeParams(p *printer, kind string, ps []Param, indent string) {
 
 // Source renders the whole program as one MRO file.
 func (prog *Program) Source(lay *Layout) string {
-	p := &printer{lay: lay, u: prog.U}
+	s, _ := prog.SourceLines(lay)
+	return s
+}
+
+// SourceLines also returns the line span of every call.
+func (prog *Program) SourceLines(lay *Layout) (string, map[string][2]int) {
+	p := &printer{lay: lay, u: prog.U, lines: map[string][2]int{}}
 	p.b.WriteString(prog.U.Decls())
 	for _, s := range prog.Stages {
 		p.b.WriteString("\n")
@@ -247,7 +256,7 @@ func (prog *Program) Source(lay *Layout) string {
 		p.b.WriteString("\n")
 		p.printCall(prog, nil, prog.Top, "")
 	}
-	return p.b.String()
+	return p.b.String(), p.lines
 }
 
 func (p *printer) printStage(s *Stage) {
@@ -336,6 +345,16 @@ func (p *printer) printPipeline(prog *Program, pl *Pipeline) {
 }
 
 func (p *printer) printCall(prog *Program, pl *Pipeline, c *Call, indent string) {
+	start := strings.Count(p.b.String(), "\n") + 1
+	defer func() {
+		key := "." + c.Id
+		if pl != nil {
+			key = pl.Name + "." + c.Id
+		}
+		if p.lines != nil {
+			p.lines[key] = [2]int{start, strings.Count(p.b.String(), "\n") + 1}
+		}
+	}()
 	if c.Comment != "" {
 		fmt.Fprintf(&p.b, "%s# %s\n", indent, c.Comment)
 	}
